@@ -135,7 +135,7 @@ fn recompute_protected(w: &mut World, m: &MDoc) {
 }
 
 pub fn c11_program(ctx: &Ctx, out: &mut RunOut) -> Result<(), Violation> {
-    for k in ["save-with-hard-fault", "save-accepted", "crash-reload", "start-from-loaded-file"] {
+    for k in ["save-with-hard-fault", "save-accepted", "crash-reload", "start-from-loaded-file", "start-from-foreign-file-with-updates"] {
         ctx.count_n(k, 0); // registered so that a probe that never fires shows up as zero in the evidence
     }
     let pd = pagegen::gen_page_doc(ctx);
@@ -152,8 +152,19 @@ pub fn c11_program(ctx: &Ctx, out: &mut RunOut) -> Result<(), Violation> {
     if start_mode == 3 {
         // a foreign file: object streams, cross-reference streams, indirect lengths, any syntax
         use pdfmodel::refwriter::{self, Revision};
-        let revs = vec![Revision { objects: pd.doc.objects.clone(), trailer: pdfmodel::trailer_payload(&pd.doc.trailer) }];
-        let mut opts = refwriter::draw_opts(ctx, 1, "1.6", &[0xE2, 0xE3, 0xCF, 0xD3]);
+        let mut revs = vec![Revision { objects: pd.doc.objects.clone(), trailer: pdfmodel::trailer_payload(&pd.doc.trailer) }];
+        // half of them with one or two appended updates that rewrite a few low-numbered objects with
+        // the values they already have: the newest cross-reference section then lists neither the
+        // highest object number nor most of the document
+        if ctx.chance(W, 1, 2, "foreign-start-updates") {
+            for _ in 0..1 + ctx.draw(W, 2, "foreign-start-n-updates") {
+                let k = 1 + ctx.draw(W, 3, "foreign-start-rewritten") as usize;
+                let objs: BTreeMap<Id, MObj> = pd.doc.objects.iter().take(k).map(|(i, o)| (*i, o.clone())).collect();
+                revs.push(Revision { objects: objs, trailer: pdfmodel::trailer_payload(&pd.doc.trailer) });
+            }
+            ctx.count("start-from-foreign-file-with-updates");
+        }
+        let mut opts = refwriter::draw_opts(ctx, revs.len(), "1.6", &[0xE2, 0xE3, 0xCF, 0xD3]);
         opts.raw_cr_eol = false;
         opts.leading_junk = false;
         let wr = refwriter::write_history(ctx, &revs, &opts);
